@@ -8,6 +8,8 @@ argument-free out-states, stored out-states discarded and running computations d
 process is registered, terminated and joined.  Not decided: schedule independence and deadlock freedom as wholes.
 """
 import ast
+import re
+import copy
 from typing import Dict, FrozenSet, List, Optional, Set, Tuple
 
 from ..core import IdiomNotRecognised, AnalysisError, Loc, Report, Source, norm
@@ -111,6 +113,155 @@ def _blocks(stmts: List[ast.stmt], guards: Dict[str, str], state_attr: str, out:
             plain.append(s)
     if plain:
         out.append(Block(plain, dict(guards), plain[0].lineno))
+
+
+
+def _post_order_calls(node: ast.AST) -> List[ast.Call]:
+    """calls in evaluation order (arguments before the call)"""
+    out: List[ast.Call] = []
+
+    def visit(n: ast.AST):
+        for c in ast.iter_child_nodes(n):
+            if isinstance(c, (ast.FunctionDef, ast.Lambda)):
+                continue
+            visit(c)
+        if isinstance(n, ast.Call):
+            out.append(n)
+    if isinstance(node, ast.Lambda):
+        visit(node.body)
+    else:
+        for st in node.body:
+            visit(st)
+    return out
+
+
+def _pipe_ops(fn: ast.AST) -> List[str]:
+    return [c.func.attr for c in _post_order_calls(fn) if isinstance(c.func, ast.Attribute) and c.func.attr in ("recv", "send")]
+
+
+def _subst(e: ast.AST, env: Dict[str, ast.AST]) -> ast.AST:
+    class S(ast.NodeTransformer):
+        def visit_Name(self, n):
+            return copy.deepcopy(env[n.id]) if isinstance(n.ctx, ast.Load) and n.id in env else n
+    return S().visit(copy.deepcopy(e)) if env else e
+
+
+def _wrap_truth(test: ast.AST, env: Dict[str, ast.AST], zero: bool, count: str) -> Optional[bool]:
+    """truth of a test under `self.<count> == 0` (zero) or `self.<count> >= 1`, parameters replaced by the call's arguments"""
+    e = _subst(test, env)
+
+    def value(x):
+        if isinstance(x, ast.Constant) and isinstance(x.value, (bool, int)):
+            return ("c", x.value)
+        if norm(x) == f"self.{count}":
+            return ("n",)
+        return None
+
+    def truth(x) -> Optional[bool]:
+        if isinstance(x, ast.UnaryOp) and isinstance(x.op, ast.Not):
+            v = truth(x.operand)
+            return None if v is None else not v
+        if isinstance(x, ast.BoolOp):
+            vs = [truth(v) for v in x.values]
+            if isinstance(x.op, ast.And):
+                return False if any(v is False for v in vs) else (None if any(v is None for v in vs) else True)
+            return True if any(v is True for v in vs) else (None if any(v is None for v in vs) else False)
+        if isinstance(x, ast.Compare) and len(x.ops) == 1:
+            a, b = value(x.left), value(x.comparators[0])
+            if a is None or b is None:
+                return None
+            op = type(x.ops[0]).__name__
+            flip = {"Lt": "Gt", "Gt": "Lt", "LtE": "GtE", "GtE": "LtE", "Eq": "Eq", "NotEq": "NotEq"}
+            if op not in flip:
+                return None
+            if a[0] == "c" and b[0] == "n":
+                a, b, op = b, a, flip[op]
+            table = {"Lt": lambda p, q: p < q, "Gt": lambda p, q: p > q, "LtE": lambda p, q: p <= q, "GtE": lambda p, q: p >= q,
+                     "Eq": lambda p, q: p == q, "NotEq": lambda p, q: p != q}
+            if a[0] == "c" and b[0] == "c":
+                return table[op](a[1], b[1])
+            if a[0] == "n" and b[0] == "c":
+                if zero:
+                    return table[op](0, b[1])
+                # count >= 1: decided when the answer is the same for 1 and for every larger count
+                k = b[1]
+                answers = {table[op](v, k) for v in (1, 2, max(2, k) + 1, max(2, k) + 2)} | ({table[op](k, k)} if k >= 1 else set())
+                return answers.pop() if len(answers) == 1 else None
+            return None
+        v = value(x)
+        if v is None:
+            return None
+        return bool(v[1]) if v[0] == "c" else not zero
+    return truth(e)
+
+
+def _resolve_wrapper(mod, e: ast.AST, env: Dict[str, ast.AST], zero: bool, count: str, depth: int = 0):
+    """(pipe operations in order, how the wrapped method is called: none / one / starred, wrapped method) of the callable that
+    the expression evaluates to under the assumption on the argument count; None when not resolved"""
+    if depth > 4:
+        return None
+    if isinstance(e, ast.IfExp):
+        t = _wrap_truth(e.test, env, zero, count)
+        return None if t is None else _resolve_wrapper(mod, e.body if t else e.orelse, env, zero, count, depth + 1)
+    if isinstance(e, (ast.Lambda, ast.FunctionDef)):
+        ops = _pipe_ops(e)
+        target = None
+        how = None
+        for c in _post_order_calls(e):
+            f = _subst(c.func, env)
+            if isinstance(c.func, ast.Name) and c.func.id in env and norm(f).startswith("self.send_"):
+                if target is not None:
+                    return None
+                target = norm(f)
+                if not c.args and not c.keywords:
+                    how = "none"
+                elif len(c.args) == 1 and not c.keywords:
+                    how = "starred" if isinstance(c.args[0], ast.Starred) else "one"
+                else:
+                    how = "other"
+        if target is None:
+            return None
+        return (ops, how, target)
+    if isinstance(e, ast.Call) and isinstance(e.func, ast.Name) and e.func.id in mod.functions and not e.keywords \
+            and not any(isinstance(a, ast.Starred) for a in e.args):
+        fn = mod.functions[e.func.id]
+        ps = [a.arg for a in fn.args.args]
+        if len(ps) != len(e.args) or fn.args.vararg or fn.args.kwarg or fn.args.kwonlyargs:
+            return None
+        inner_env = {p_: _subst(a, env) for p_, a in zip(ps, e.args)}
+        fenv: Dict[str, ast.AST] = {}
+
+        def run(stmts):
+            for st in stmts:
+                if isinstance(st, ast.FunctionDef):
+                    fenv[st.name] = st
+                elif isinstance(st, ast.If):
+                    t = _wrap_truth(st.test, inner_env, zero, count)
+                    if t is None:
+                        return "unknown"
+                    r = run(st.body if t else st.orelse)
+                    if r is not None:
+                        return r
+                elif isinstance(st, ast.Return):
+                    return ("ret", st.value)
+                elif isinstance(st, ast.Assign) and len(st.targets) == 1 and isinstance(st.targets[0], ast.Name) \
+                        and isinstance(st.value, ast.Lambda):
+                    fenv[st.targets[0].id] = st.value
+                elif isinstance(st, ast.Expr) and isinstance(st.value, ast.Constant):
+                    continue
+                elif isinstance(st, (ast.Assert, ast.Pass)):
+                    continue
+                else:
+                    return "unknown"
+            return None
+        r = run(fn.body)
+        if not isinstance(r, tuple) or r[1] is None:
+            return None
+        v = r[1]
+        if isinstance(v, ast.Name) and v.id in fenv:
+            return _resolve_wrapper(mod, fenv[v.id], inner_env, zero, count, depth + 1)
+        return _resolve_wrapper(mod, v, inner_env, zero, count, depth + 1)
+    return None
 
 
 def check_parent_protocol(prog: Program, rep: Report) -> None:
@@ -396,7 +547,10 @@ def check_parent_protocol(prog: Program, rep: Report) -> None:
             for c in sends:
                 arg = norm(c.args[0]) if c.args else ""
                 want = "number_send_out_state_arguments" if "_out_state_arguments" in arg else "number_send_event_time_arguments"
-                rep.ob("R20.2-send-iff-arguments", want in t and "not " not in t, Loc(MPM, n.lineno, "MultiProcessMediator.run"),
+                verdict = want in t and "not " not in t
+                if not verdict and re.search(r" in self\._\w+$", t) and "arguments" not in t.split(" in ")[0]:
+                    verdict = None       # the condition is membership in a table that the mediator derived earlier: not followed
+                rep.ob("R20.2-send-iff-arguments", verdict, Loc(MPM, n.lineno, "MultiProcessMediator.run"),
                        f"if {t}: send({arg})",
                        f"the parent must send exactly when the worker's wrapped method receives (condition on `{want}`)")
     # worker
@@ -407,6 +561,7 @@ def check_parent_protocol(prog: Program, rep: Report) -> None:
     wloc = Loc(MPM, worker.lineno, "run_in_process")
     binds = [n for n in ast.walk(worker) if isinstance(n, ast.Assign) and self_attr(n.targets[0]) in ("send_event_time", "send_out_state")]
     wrapped: Set[str] = set()
+    unrecognised: Set[str] = set()
     for which in ("send_event_time", "send_out_state"):
         count = "number_send_event_time_arguments" if which == "send_event_time" else "number_send_out_state_arguments"
         # (value used when the method takes no arguments, value used when it takes arguments): from a conditional expression or
@@ -421,47 +576,50 @@ def check_parent_protocol(prog: Program, rep: Report) -> None:
                 eb = [b_ for b_ in st_.orelse if isinstance(b_, ast.Assign) and self_attr(b_.targets[0]) == which]
                 if len(tb) == 1 and len(eb) == 1:
                     pairs.append((st_.test, tb[0].value, eb[0].value, tb[0]))
+        singles = [b_ for b_ in binds if self_attr(b_.targets[0]) == which] if not pairs else []
+        cases = []          # (binding, expression when the method takes no arguments, expression when it takes arguments)
         for test, then_v, else_v, bnd in pairs:
-            at = atoms(test)
-            sp = split_atom(at[0]) if len(at) == 1 else None
-            t = norm(test)
-            none_then = None
-            if sp is not None and sp[0].endswith(count) and sp[2] == "0" and sp[1] in ("==", "!="):
-                none_then = sp[1] == "=="
-            elif sp is not None and sp[2].endswith(count) and sp[0] == "0" and sp[1] in ("==", "!=", "<"):
-                none_then = sp[1] == "=="
-            elif t.endswith(count):
-                none_then = False            # `if self.number_..._arguments:` -> then-branch is the with-arguments case
-            elif t == f"not self.{count}":
-                none_then = True
-            ok = False
-            if none_then is not None:
-                no_args, with_args = (then_v, else_v) if none_then else (else_v, then_v)
-                ok = "without_arguments" in norm(no_args) and "with_arguments" in norm(with_args) \
-                    and f"self.{which}" in norm(no_args) and f"self.{which}" in norm(with_args)
-                unpack = [a for a in ast.walk(with_args) if isinstance(a, ast.Constant) and isinstance(a.value, bool)]
-                ok = ok and len(unpack) == 1 and unpack[0].value == (which == "send_out_state")
+            tz, tn = _wrap_truth(test, {}, True, count), _wrap_truth(test, {}, False, count)
+            if tz is None or tn is None or tz == tn:
+                rep.ob("R20.2-worker-wrapping", None, Loc(MPM, bnd.lineno, "run_in_process"), bnd,
+                       "condition of the wrapping is not a test of the argument count")
+                unrecognised.add(which)
+                continue
+            cases.append((bnd, then_v if tz else else_v, then_v if tn else else_v))
+        if len(singles) == 1:
+            cases.append((singles[0], singles[0].value, singles[0].value))
+        for bnd, no_args, with_args in cases:
+            wz = _resolve_wrapper(mod, no_args, {}, True, count)
+            wn = _resolve_wrapper(mod, with_args, {}, False, count)
+            if wz is None or wn is None:
+                rep.ob("R20.2-worker-wrapping", None, Loc(MPM, bnd.lineno, "run_in_process"), bnd, "wrapper of the method not resolved")
+                unrecognised.add(which)
+                continue
+            ok = wz == (["send"], "none", f"self.{which}") and \
+                wn == (["recv", "send"], "starred" if which == "send_out_state" else "one", f"self.{which}")
             if ok:
                 wrapped.add(which)
             rep.ob("R20.2-worker-wrapping", ok, Loc(MPM, bnd.lineno, "run_in_process"), bnd,
                    f"the worker must wrap {which} so that it receives from the pipe exactly when the method takes arguments "
-                   f"(unpacked for send_out_state, as one in-state for send_event_time) and always sends its result")
-        if not pairs:
+                   f"(unpacked for send_out_state, as one in-state for send_event_time) and always sends its result "
+                   f"[without arguments: {wz}; with arguments: {wn}]")
+        if not cases and which not in unrecognised:
             rep.ob("R20.2-worker-wrapping", None, wloc, which, "wrapping of the method on the argument count not recognised")
+            unrecognised.add(which)
     binds = list(wrapped)
-    rep.ob("R20.2-worker-wrapping-both", len(binds) == 2, wloc, f"{len(binds)} wrapped methods", "both methods must be wrapped")
-    for wname in ("_communicate_via_pipe_without_arguments", "_communicate_via_pipe_with_arguments"):
-        fn = mod.functions.get(wname)
-        if fn is None:
-            rep.ob("R20.2-wrapper-shape", None, wloc, wname, "wrapper not found")
+    # a method whose wrapping idiom was not recognised is undecided above, it is not counted as `not wrapped` here
+    rep.ob("R20.2-worker-wrapping-both", None if unrecognised else len(binds) == 2, wloc, f"{len(binds)} wrapped methods",
+           "both methods must be wrapped")
+    for wname, fn in sorted(mod.functions.items()):
+        if fn is worker:
             continue
-        inner = [n for n in ast.walk(fn) if isinstance(n, ast.FunctionDef) and n is not fn]
+        inner = [n for n in ast.walk(fn) if isinstance(n, (ast.FunctionDef, ast.Lambda)) and n is not fn]
         for i in inner:
-            calls = [c.func.attr for c in ast.walk(i) if isinstance(c, ast.Call) and isinstance(c.func, ast.Attribute)
-                     and c.func.attr in ("recv", "send")]
-            want = ["send"] if "without" in wname else ["recv", "send"]
-            rep.ob("R20.2-wrapper-shape", sorted(calls) == sorted(want) and calls[-1] == "send", Loc(MPM, i.lineno, wname),
-                   f"{wname}: {calls}", f"the wrapper must perform {want} on the pipe, in this order")
+            calls = _pipe_ops(i)
+            if not calls:
+                continue
+            rep.ob("R20.2-wrapper-shape", calls in (["send"], ["recv", "send"]), Loc(MPM, i.lineno, wname),
+                   f"{wname}: {calls}", "a pipe wrapper of the worker performs [send] or [recv, send] on the pipe, in this order")
     # worker loop, by abstract execution of each stage (the statements between two waits) under every valuation of the two events:
     #   stage 1 (idle):      only start set    -> clear start, send_event_time, go on to stage 2;  otherwise raise
     #   stage 2 (suspended): only start set    -> restart the loop (start stays set for stage 1), nothing sent
@@ -564,6 +722,8 @@ def check_precompute_and_trash(prog: Program, rep: Report) -> None:
         ok = any(c.startswith("not ") and c.endswith(".number_send_out_state_arguments") for c in conds) \
             or any(split_atom(c) is not None and split_atom(c)[0].endswith(".number_send_out_state_arguments") and split_atom(c)[1] == "=="
                    and split_atom(c)[2] == "0" for c in conds)
+        if not ok and any(re.search(r"^(not )?[\w.\[\]]+ (not )?in self\._\w+$", c) for c in conds):
+            ok = None            # guarded by membership in a table that the mediator derived earlier: not followed
         rep.ob("R20.3-precompute-only-without-arguments", ok, Loc(MPM, a.lineno, "MultiProcessMediator.run"), a,
                "an out-state may be computed ahead of time only for handlers without out-state arguments (arguments depend on "
                "the global state at commit time)")
@@ -742,6 +902,9 @@ def analyse(src: Source) -> List[Report]:
     check_precompute_and_trash(prog, rep)
     check_processes(prog, rep)
     check_permits(prog, rep)
+    # what the workers receive through the pipes is what the parent sent (pickling is faithful; rule shared with C19)
+    from .c19 import check_pickle_hooks_faithful
+    check_pickle_hooks_faithful(prog, rep, "R20.6-pickle-hooks-faithful")
     rep.expect_min("R20.1-order", 20)
     rep.expect_min("R20.2-legal-transition", 6)
     rep.expect_min("R20.2-wrapper-shape", 3)
